@@ -35,12 +35,12 @@ package table
 //@
 //@ func (*Table).Put
 //@   requires tbl(t) && len(key) <= 1000000000
-//@   modifies gKeyValueWriterPutN, gKeyValueWriterPutRecv, gKeyValueWriterPutA0, gKeyValueWriterPutA1, gKeyValueWriterPutR0
+//@   modifies gKeyValueWriterPutN, gKeyValueWriterPutRecv, gKeyValueWriterPutA0, gKeyValueWriterPutA1, gKeyValueWriterPutR0, gWrOpN, gWrOpKind[*], gWrOpRecv[*], gWrOpKey[*], gWrOpVal[*], gWrOpErr[*]
 //@   ensures  gKeyValueWriterPutN == old(gKeyValueWriterPutN) + 1 && gKeyValueWriterPutRecv == t.underlying
 //@   ensures  isCat(gKeyValueWriterPutA0, t.prefix, key) && gKeyValueWriterPutA1 == value && result == gKeyValueWriterPutR0
 //@ func (*Table).Delete
 //@   requires tbl(t) && len(key) <= 1000000000
-//@   modifies gKeyValueWriterDeleteN, gKeyValueWriterDeleteRecv, gKeyValueWriterDeleteA0, gKeyValueWriterDeleteR0
+//@   modifies gKeyValueWriterDeleteN, gKeyValueWriterDeleteRecv, gKeyValueWriterDeleteA0, gKeyValueWriterDeleteR0, gWrOpN, gWrOpKind[*], gWrOpRecv[*], gWrOpKey[*], gWrOpVal[*], gWrOpErr[*]
 //@   ensures  gKeyValueWriterDeleteN == old(gKeyValueWriterDeleteN) + 1 && gKeyValueWriterDeleteRecv == t.underlying
 //@   ensures  isCat(gKeyValueWriterDeleteA0, t.prefix, key) && result == gKeyValueWriterDeleteR0
 //@ func (*IteratedReader).Has
@@ -80,12 +80,12 @@ package table
 //@
 //@ func (*batch).Put
 //@   requires b != nil && b.batch != nil && len(key) + len(b.prefix) <= 1000000000
-//@   modifies gKeyValueWriterPutN, gKeyValueWriterPutRecv, gKeyValueWriterPutA0, gKeyValueWriterPutA1, gKeyValueWriterPutR0
+//@   modifies gKeyValueWriterPutN, gKeyValueWriterPutRecv, gKeyValueWriterPutA0, gKeyValueWriterPutA1, gKeyValueWriterPutR0, gWrOpN, gWrOpKind[*], gWrOpRecv[*], gWrOpKey[*], gWrOpVal[*], gWrOpErr[*]
 //@   ensures  gKeyValueWriterPutN == old(gKeyValueWriterPutN) + 1 && gKeyValueWriterPutRecv == b.batch
 //@   ensures  isCat(gKeyValueWriterPutA0, b.prefix, key) && gKeyValueWriterPutA1 == value && result == gKeyValueWriterPutR0
 //@ func (*batch).Delete
 //@   requires b != nil && b.batch != nil && len(key) + len(b.prefix) <= 1000000000
-//@   modifies gKeyValueWriterDeleteN, gKeyValueWriterDeleteRecv, gKeyValueWriterDeleteA0, gKeyValueWriterDeleteR0
+//@   modifies gKeyValueWriterDeleteN, gKeyValueWriterDeleteRecv, gKeyValueWriterDeleteA0, gKeyValueWriterDeleteR0, gWrOpN, gWrOpKind[*], gWrOpRecv[*], gWrOpKey[*], gWrOpVal[*], gWrOpErr[*]
 //@   ensures  gKeyValueWriterDeleteN == old(gKeyValueWriterDeleteN) + 1 && gKeyValueWriterDeleteRecv == b.batch
 //@   ensures  isCat(gKeyValueWriterDeleteA0, b.prefix, key) && result == gKeyValueWriterDeleteR0
 //@ func (*batch).Write
@@ -100,12 +100,12 @@ package table
 //@
 //@ func (*replayer).Put
 //@   requires r != nil && r.writer != nil
-//@   modifies gKeyValueWriterPutN, gKeyValueWriterPutRecv, gKeyValueWriterPutA0, gKeyValueWriterPutA1, gKeyValueWriterPutR0
+//@   modifies gKeyValueWriterPutN, gKeyValueWriterPutRecv, gKeyValueWriterPutA0, gKeyValueWriterPutA1, gKeyValueWriterPutR0, gWrOpN, gWrOpKind[*], gWrOpRecv[*], gWrOpKey[*], gWrOpVal[*], gWrOpErr[*]
 //@   ensures  gKeyValueWriterPutN == old(gKeyValueWriterPutN) + 1 && gKeyValueWriterPutRecv == r.writer && gKeyValueWriterPutA1 == value && result == gKeyValueWriterPutR0
 //@   ensures  len(key) >= len(r.prefix) ==> isTail(gKeyValueWriterPutA0, key, len(r.prefix))
 //@ func (*replayer).Delete
 //@   requires r != nil && r.writer != nil
-//@   modifies gKeyValueWriterDeleteN, gKeyValueWriterDeleteRecv, gKeyValueWriterDeleteA0, gKeyValueWriterDeleteR0
+//@   modifies gKeyValueWriterDeleteN, gKeyValueWriterDeleteRecv, gKeyValueWriterDeleteA0, gKeyValueWriterDeleteR0, gWrOpN, gWrOpKind[*], gWrOpRecv[*], gWrOpKey[*], gWrOpVal[*], gWrOpErr[*]
 //@   ensures  gKeyValueWriterDeleteN == old(gKeyValueWriterDeleteN) + 1 && gKeyValueWriterDeleteRecv == r.writer && result == gKeyValueWriterDeleteR0
 //@   ensures  len(key) >= len(r.prefix) ==> isTail(gKeyValueWriterDeleteA0, key, len(r.prefix))
 //@
